@@ -386,7 +386,7 @@ class Driver:
         self.reset()
 
     def reset(self):
-        self.it = Intern(self.rdf0); self.fs = FsReg(self.it); self.doc = None; self.twin = None
+        self.it = Intern(self.rdf0); self.fs = FsReg(self.it); self.doc = None; self.twin = None; self.twin_term = self.EMPTY_DOC
         self.nfile = 0; self.saved = []     # (target object, kind)
 
     def fresh(self, suffix=""):
@@ -394,11 +394,18 @@ class Driver:
         return str(self.work / ("f%d_%d%s" % (os.getpid(), self.nfile, suffix)))
 
     # -- abstraction
+    EMPTY_DOC = "mkD (mkC [] [] None PZip) []"
+
     def state(self, extra_ids=()):
+        ids = list(extra_ids)
+        self.twin_term = self.EMPTY_DOC
+        if self.twin is not None:
+            self.twin_term, tpid = abs_document(self.twin, self.it, self.fs)
+            ids.append(tpid)
         if self.doc is None or self.doc.container is None:
-            return self.fs.term(list(extra_ids)), "mkD (mkC [] [] None PZip) []"
+            return self.fs.term(ids), self.EMPTY_DOC
         dt, pid = abs_document(self.doc, self.it, self.fs)
-        return self.fs.term([pid] + list(extra_ids)), dt
+        return self.fs.term([pid] + ids), dt
 
     def part_bytes_now(self, name):
         """current bytes of a part, read from private state / disk (not through get_part)"""
@@ -444,7 +451,23 @@ class Driver:
             else:
                 sid = self.fs.id_of(src)
             ids.append(sid)
+        if k == "rmsource":
+            # environment action: the file a path-opened document came from disappears
+            for dd in (self.doc, self.twin):
+                if dd is not None and dd.container.path is not None and str(dd.container.path).startswith(str(self.work)):
+                    pth = str(dd.container.path)
+                    shutil.rmtree(pth) if os.path.isdir(pth) else os.unlink(pth)
+            return None
+        if k == "swap":
+            self.doc, self.twin = self.twin, self.doc
+            return None
+        if k == "copyopen":
+            # open a private copy of a sample by path (so that the source can be removed / overwritten later)
+            dst = self.fresh(os.path.splitext(o["src"])[1]); shutil.copy(o["src"], dst)
+            o = dict(o, op="open", src=dst, buf=False); k = "open"
+            sid = self.fs.id_of(dst); ids.append(sid)
         pre_fs, pre = self.state(ids)
+        twin_pre = self.twin_term
         out, err, opt_term = "Done", None, None
         try:
             if k == "open":
@@ -529,6 +552,12 @@ class Driver:
             elif k == "clone":
                 opt_term = "OClone"
                 self.doc = limited(lambda: self.doc.clone)
+            elif k == "clone2":
+                # keep the original as the twin, continue with the clone
+                opt_term = "OClone"
+                orig = self.doc
+                self.doc = limited(lambda: orig.clone)
+                self.twin = orig
             else:
                 raise ValueError("unknown op %r" % (k,))
         except Timeout:
@@ -538,7 +567,8 @@ class Driver:
             if opt_term is None:
                 raise
         post_fs, post = self.state(ids)
-        return dict(pre_fs=pre_fs, pre=pre, op=opt_term, post_fs=post_fs, post=post, out=out, err=err, kind=k)
+        return dict(pre_fs=pre_fs, pre=pre, op=opt_term, post_fs=post_fs, post=post, out=out, err=err, kind=k,
+                    twin_pre=twin_pre, twin_post=self.twin_term)
 
     # -- helpers for ops
     def make_data(self, name, variant, data=None):
@@ -592,6 +622,10 @@ class Driver:
             part.root.set_attribute("office:version", arg or "1.2")
 
 
+def step_case10(r):
+    return "mk10 (%s) (%s) (%s) (%s) (%s) (%s) (%s) (%s)" % (r["pre_fs"], r["pre"], r["twin_pre"], r["op"], r["post_fs"], r["post"], r["twin_post"], r["out"])
+
+
 def step_case(r):
     return "mk (%s) (%s) (%s) (%s) (%s) (%s)" % (r["pre_fs"], r["pre"], r["op"], r["post_fs"], r["post"], r["out"])
 
@@ -599,6 +633,7 @@ def step_case(r):
 PKG_HEADER = """Require Import Package. From Coq Require Import List ZArith Bool Arith. Import ListNotations.
 Open Scope Z_scope.
 Definition mk (fs : cfs) (d : cdoc) (o : cop) (fs' : cfs) (d' : cdoc) (r : out cbytes) := (fs, d, o, fs', d', r).
+Definition mk10 (fs : cfs) (d tw : cdoc) (o : cop) (fs' : cfs) (d' tw' : cdoc) (r : out cbytes) := (fs, d, tw, o, fs', d', tw', r).
 """
 
 
@@ -705,6 +740,8 @@ def resolve(drv, o, rng_seed):
         return [dict(op="open", src=idx, buf=rng.random() < 0.4)]
     if k == "clone":
         return [dict(op="clone")]
+    if k in ("clone2", "swap", "rmsource"):
+        return [dict(op=k)]
     raise ValueError(k)
 
 
@@ -724,6 +761,7 @@ def run_history(drv, hist, seed):
     drv.reset()
     recs = []
     last_returned = None
+    pending = []
     for i, o in enumerate(hist):
         for c in resolve(drv, o, (seed * 1000003 + i * 7919 + o.get("r", 0)) & 0x7FFFFFFF):
             c = dict(c)
@@ -736,11 +774,13 @@ def run_history(drv, hist, seed):
             else:
                 c_run = dict(c)
             r = drv.apply(c_run)
+            if r is None:
+                pending.append(c); continue
             if c_run.get("returned"):
                 last_returned = c_run["returned"]
             if "saved_index" in c_run:
                 c["saved_index"] = c_run["saved_index"]
-            r["concrete"] = c
+            r["concrete"] = c; r["env_before"] = pending; pending = []
             recs.append(r)
     return recs
 
@@ -759,7 +799,7 @@ def _work_one(args):
             recs = run_concrete(_DRV, hist)
         else:
             recs = run_history(_DRV, hist, seed + hid)
-        keep = ("pre_fs", "pre", "op", "post_fs", "post", "out", "err", "kind", "concrete", "extra")
+        keep = ("pre_fs", "pre", "op", "post_fs", "post", "out", "err", "kind", "concrete", "extra", "twin_pre", "twin_post", "env_before")
         return hid, [dict((k, r.get(k)) for k in keep) for r in recs], None
     except Timeout:
         return hid, None, "timeout"
@@ -772,6 +812,7 @@ def run_concrete(drv, ops):
     """replay: a list of concrete op dicts (as stored in a replay / corpus file)"""
     drv.reset()
     recs = []
+    pending = []
     for c in ops:
         c_run = dict(c)
         c_run.pop("saved_index", None); c_run.pop("returned", None)
@@ -780,7 +821,9 @@ def run_concrete(drv, ops):
         if "data" in c_run and isinstance(c_run["data"], str):
             c_run["data"] = c_run["data"].encode("latin-1")
         r = drv.apply(c_run)
-        r["concrete"] = dict(c)
+        if r is None:
+            pending.append(dict(c)); continue
+        r["concrete"] = dict(c); r["env_before"] = pending; pending = []
         recs.append(r)
     return recs
 
@@ -812,16 +855,19 @@ def cleanup(work):
 
 
 def concrete_prefix(recs, upto):
-    return [r["concrete"] for r in recs[:upto + 1]]
+    out = []
+    for r in recs[:upto + 1]:
+        out += list(r.get("env_before") or []) + [r["concrete"]]
+    return out
 
 
 def run_check(prop, checker, layers, make_histories, key_of, tier, seed, replay, trusted_base, rule, assumptions,
               nontrivial_kinds, extra_targets=("PkgChk",), header_extra="Require Import PkgChk.\n", fidelity_code=9, shard=60,
-              post_hook=None):
+              post_hook=None, case_fn=None, header=None, proof_file=None, finish=True):
     """the common decision procedure of the package-level checks (BUILDERS.md contract)"""
     import random
     t0 = time.time(); rng = random.Random(seed)
-    proofs = common.build_proofs(prop, extra_targets=extra_targets)
+    proofs = common.build_proofs(proof_file or prop, extra_targets=extra_targets)
     corpus = []
     for f in sorted((common.ROOT / "corpus" / prop).glob("*.json")):
         j = json.load(open(f))
@@ -838,9 +884,9 @@ def run_check(prop, checker, layers, make_histories, key_of, tier, seed, replay,
     cases, where, hist_ops = [], [], {}
     for hid, recs in done:
         for i, r in enumerate(recs):
-            cases.append(step_case(r)); where.append((hid, i))
+            cases.append((case_fn or step_case)(r)); where.append((hid, i))
             hist_ops[r["kind"]] = hist_ops.get(r["kind"], 0) + 1
-    bad, errors = common.run_shards(PKG_HEADER + header_extra, cases, checker, prop.lower(), shard=shard) if cases else ({}, [])
+    bad, errors = common.run_shards((header or PKG_HEADER) + header_extra, cases, checker, prop.lower(), shard=shard) if cases else ({}, [])
     recmap = dict(done)
     violations, known_seen, seen_keys = [], [], set()
     known = {e["key"]: e for e in common.known_findings(prop)}
@@ -870,7 +916,10 @@ def run_check(prop, checker, layers, make_histories, key_of, tier, seed, replay,
         v2, k2, extra_cov, errs2 = post_hook(done, recmap, seed, known, proofs)
         violations += v2; known_seen += k2; errors = errors + errs2
     harness_failures = [e for _, e in failed if e != "timeout"]
-    violations += common.proof_violation(prop, seed, proofs, errors + harness_failures[:3], bool(hard) or bool(violations))
+    pv = common.proof_violation(prop, seed, proofs, errors + harness_failures[:3], bool(hard) or bool(violations))
+    if pv and proof_file:
+        pv = [(common.write_replay(prop, seed, "proof", dict(json.load(open(pv[0][0])), theorem_file="coq/theories/%s.v" % proof_file)), True)]
+    violations += pv
     nontriv = set()
     for hid, recs in done:
         for r in recs:
@@ -888,6 +937,8 @@ def run_check(prop, checker, layers, make_histories, key_of, tier, seed, replay,
         coverage["samples"] = coverage["samples"] + extra_cov.pop("samples")
     coverage.update(extra_cov)
     cleanup(work)
+    if not finish:
+        return dict(proofs=proofs, coverage=coverage, violations=violations, known_seen=known_seen, assumptions=assumptions, t0=t0)
     return common.finish(prop, tier, seed, proofs, coverage, violations, known_seen, t0, assumptions=assumptions)
 
 
